@@ -209,6 +209,8 @@ def layout_check(G, u, bdir, driver):
             continue
         if '(lambda' in p[1] or '(anonymous' in p[1]:
             continue
+        if p[1] in G.get('layout_unspellable', ()):
+            continue    # a type clang's name printer spells in a way that does not parse back (non-type argument of enum type); listed by the group
         if p[1] not in alias:
             alias[p[1]] = 'vf_T%d' % len(alias)
             cpp.append('using %s = ::%s;' % (alias[p[1]], p[1]))
